@@ -52,8 +52,8 @@ def scen_coq(sc):
     return "mkOScen %s\n  %s" % (mm, Emitter.lst(step_coq(st) for st in sc["steps"]))
 
 
-def correspondence(chk, tag, scen):
-    body = "Definition cases : list oscen :=\n [" + ";\n  ".join(scen_coq(sc) for sc in scen) + "].\nDefinition M_def := mismatches cases.\n"
+def correspondence(chk, tag, scen, pid="C12"):
+    body = "Definition cases : list oscen :=\n [" + ";\n  ".join(scen_coq(sc) for sc in scen) + "].\nDefinition M_def := mismatches mode_%s cases.\n" % pid.lower()
     val, out, dt = vlib.coq_eval(tag, ["TSS.Base.Base", "TSS.Orch.Membership", "TSS.Orch.Sessions", "TSS.Corr.OrchCorr"], body)
     chk.notes.append("%s: %d histories evaluated in Coq in %.1fs" % (tag, len(scen), dt))
     pairs = vlib.parse_pairs(val) if val is not None else None
@@ -217,7 +217,7 @@ def run(pid, tier, seed):
                 chk.cov["monitor_hits"] += 1
     mism = []
     shards = [(i // 100, scen[i:i + 100]) for i in range(0, len(scen), 100)]
-    for m, out in vlib.parallel_map(lambda s: correspondence(chk, "%s_orch_%d" % (pid, s[0]), s[1]), shards):
+    for m, out in vlib.parallel_map(lambda s: correspondence(chk, "%s_orch_%d" % (pid, s[0]), s[1], pid), shards):
         if m is None:
             chk.violation("corr_eval.txt", "in-Coq evaluation failed:\n" + out, no_input=True)
             break
